@@ -417,6 +417,26 @@ func All() []Program {
 			Data: map[string]vals.V{"who": s("f2WHO")}, Feat: []string{"fail", "early"}},
 		{Name: "fail-in-loop", Fails: true, Files: map[string]string{"page.vuego": `<p>before</p><ul><li v-for="r in rows"><b v-if="r.n > 10">{{ r.name | boom }}</b><i v-else>{{ r.name }}</i></li></ul>`},
 			Data: map[string]vals.V{"rows": recs("l1", "l2", "l3")}, Feat: []string{"fail", "loop"}},
+		// (the same failure with the collection spelled as a typed slice, an array, a slice of
+		// structs: the loop's error must surface whatever the collection's Go type)
+		{Name: "fail-in-loop-strings", Fails: true, Files: map[string]string{"page.vuego": `<p>before</p><ul><li v-for="r in rows"><b v-if="r == 'l2'">{{ r | boom }}</b><i v-else>{{ r }}</i></li></ul><p>after</p>`},
+			Data: map[string]vals.V{"rows": list("l1", "l2", "l3")}, Feat: []string{"fail", "loop", "typed-collection"}},
+		{Name: "fail-in-loop-array", Fails: true, Files: map[string]string{"page.vuego": `<p>before</p><ul><li v-for="r in rows"><b v-if="r == 'l2'">{{ r | boom }}</b><i v-else>{{ r }}</i></li></ul><p>after</p>`},
+			Data: map[string]vals.V{"rows": {K: "[2]string", L: []vals.V{s("l1"), s("l2")}}}, Feat: []string{"fail", "loop", "typed-collection"}},
+		{Name: "fail-in-loop-ints", Fails: true, Files: map[string]string{"page.vuego": `<p>before</p><ul><li v-for="r in rows"><b v-if="r == 2">{{ r | boom }}</b><i v-else>{{ r }}</i></li></ul><p>after</p>`},
+			Data: map[string]vals.V{"rows": {K: "[]int", L: []vals.V{n(1), n(2), n(3)}}}, Feat: []string{"fail", "loop", "typed-collection"}},
+		{Name: "fail-in-loop-structs", Fails: true, Files: map[string]string{"page.vuego": `<p>before</p><ul><li v-for="r in rows"><b v-if="r.Name == 'kid2'">{{ r.Name | boom }}</b><i v-else>{{ r.Name }}</i></li></ul><p>after</p>`},
+			Data: map[string]vals.V{"rows": {K: "[]rec", L: []vals.V{{K: "rec", M: map[string]vals.V{"Name": s("kid1")}}, {K: "rec", M: map[string]vals.V{"Name": s("kid2")}}}}}, Feat: []string{"fail", "loop", "typed-collection"}},
+		{Name: "fail-include-in-typed-loop", Fails: true, Files: map[string]string{"page.vuego": `<p>before</p><div v-for="r in rows"><template v-if="r == 'l2'" include="nope.vuego"></template><i v-else>{{ r }}</i></div><p>after</p>`},
+			Data: map[string]vals.V{"rows": list("l1", "l2")}, Feat: []string{"fail", "loop", "typed-collection", "include"}},
+		{Name: "fail-require-short", Fails: true, Files: map[string]string{
+			"page.vuego": `<p>before</p><template include="c.vuego" a="1"></template>`,
+			"c.vuego":    `<template :require="a,zzz"><p>{{ a }}</p></template>`,
+		}, Feat: []string{"fail", "required"}},
+		{Name: "fail-required-spaced", Fails: true, Files: map[string]string{
+			"page.vuego": `<p>before</p><template include="c.vuego" a="1"></template>`,
+			"c.vuego":    "<template :required=\"a ,\n  zzz\"><p>{{ a }}</p></template>",
+		}, Feat: []string{"fail", "required"}},
 		{Name: "fail-missing-include", Fails: true, Files: map[string]string{"page.vuego": `<p>before</p><template include="nope.vuego"></template><p>after</p>`},
 			Feat: []string{"fail", "include"}},
 		{Name: "fail-required", Fails: true, Files: map[string]string{
